@@ -57,4 +57,20 @@ func init() {
 		{Kind: "conds", File: sf, Func: "validateSchedule", Name: "validateKinds"},
 		{Kind: "calls", File: sf, Func: "validateSchedule", Name: "validateConds", Match: []string{"if"}},
 	}
+
+	const rs = "v2/pkg/engine/resolve/resolvable.go"
+	specs["C02"] = []item{
+		{Kind: "calls", File: rs, Func: "Resolvable.walkString", Name: "stringConds", Match: []string{"if"}},
+		{Kind: "calls", File: rs, Func: "Resolvable.walkBoolean", Name: "boolConds", Match: []string{"if"}},
+		{Kind: "calls", File: rs, Func: "Resolvable.walkInteger", Name: "intConds", Match: []string{"if"}},
+		{Kind: "calls", File: rs, Func: "Resolvable.walkFloat", Name: "floatConds", Match: []string{"if"}},
+		{Kind: "calls", File: rs, Func: "Resolvable.walkBigInt", Name: "bigIntConds", Match: []string{"if"}},
+		{Kind: "calls", File: rs, Func: "Resolvable.walkScalar", Name: "scalarConds", Match: []string{"if"}},
+		{Kind: "calls", File: rs, Func: "Resolvable.walkEnum", Name: "enumConds", Match: []string{"if"}},
+		{Kind: "calls", File: rs, Func: "Resolvable.walkArray", Name: "arrayConds", Match: []string{"if", "value.SetArrayItem", "astjson.SetNull"}},
+		{Kind: "calls", File: rs, Func: "Resolvable.walkObject", Name: "objectConds", Match: []string{"if", "r.walkFields", "r.walkNull", "r.err"}},
+		{Kind: "calls", File: rs, Func: "Resolvable.walkFields", Name: "fieldsConds", Match: []string{"if", "astjson.SetNull", "r.walkNode"}},
+		{Kind: "calls", File: rs, Func: "Resolvable.Resolve", Name: "resolveSkeleton", Match: []string{"r.walkObject", "r.printErrors", "r.printData", "if"}},
+		{Kind: "calls", File: "v2/pkg/engine/resolve/node_object.go", Func: "Object.isAbstract", Name: "abstractConds", Match: []string{"if", "return"}},
+	}
 }
